@@ -117,3 +117,27 @@ func DFTTest(e []bool) (lo, hi [2]float64, n1lo, amb int) {
 	}
 	return f(n1lo), f(n1lo + amb), n1lo, amb
 }
+
+// TransitionSpectrumCount: analytic spectrum of the +-1 sequence that is +s for i < t and -s for t <= i < n,
+// zero-extended to N points:  X_k = s (2 G(t,k) - G(n,k)),  G(L,k) = sum_{i<L} w^{ik} = (1 - w^{Lk}) / (1 - w^k), w = exp(-2 pi i / N).
+// Returns how many of the first cnt magnitudes are certainly below T (lo) and how many are within the relative band (amb).
+func TransitionSpectrumCount(n, t, N, cnt int, T, band float64) (lo, amb int) {
+	g := func(L, k int) complex128 {
+		if k == 0 {
+			return complex(float64(L), 0)
+		}
+		r := int((int64(L) * int64(k)) % int64(N))
+		num := 1 - cmplx.Rect(1, -2*math.Pi*float64(r)/float64(N))
+		den := 1 - cmplx.Rect(1, -2*math.Pi*float64(k)/float64(N))
+		return num / den
+	}
+	for k := 0; k < cnt; k++ {
+		m := cmplx.Abs(2*g(t, k) - g(n, k))
+		if m < T*(1-band) {
+			lo++
+		} else if m < T*(1+band) {
+			amb++
+		}
+	}
+	return
+}
